@@ -238,6 +238,19 @@ def c05_cases(rng, tier):
     cases.append(case([P(3), op("COM"), P(4000), op("ALOC"), op("COME")], sols=RICH_SOLS, mem=[1] * 100))
     cases.append(case([P(2), op("COM"), P(5000), op("ALOC"), op("COME")], sols=RICH_SOLS, mem=[1] * 100))
     cases.append(case([P(2), op("COM"), P(5), op("COME")], stack=full[:-1], sols=RICH_SOLS))
+    # crypto ops on messages around typical fixed buffer sizes (totality only)
+    for ln in (255, 256, 257, 1016, 1023, 1024, 1025, 1031, 1032, 1033, 2047, 2048, 2049, 4095, 4096, 4097, 8191, 8193):
+        data = bytes((3 * i + ln) & 0xFF for i in range(ln))
+        cases.append(case([op("SHA2")], stack=[9] + words_of_bytes(data) + [ln], sols=RICH_SOLS))
+        cases.append(case([op("VRFYED")], stack=[6] + words_of_bytes(data) + [ln] + [1] * 8 + [2] * 4, sols=RICH_SOLS))
+    # the stack grown *by the program* to just below the limit (its allocation then has spare capacity), then one more op
+    for grow in ([P(3000), op("RES"), P(1093), op("RES")], [P(2048), op("RES"), P(2045), op("RES")], [P(4093), op("RES")]):
+        for fill in (0, 1, 2, 3):
+            pre = grow + [P(1)] * fill
+            for tail in ([op("DUP")], [op("DUP"), op("DUP")], [P(0), op("DUPF")], [P(3), op("RES")], [P(0), P(3), op("LODR")],
+                         [op("THIS")], [op("THISC")], [P(0), P(0), P(3), op("DATA")], [P(8), op("SHA2")], [P(0), op("LODS")],
+                         [P(1), P(1), P(1), op("PUSH") if False else P(1)], [op("REPC")], [P(2), P(1), op("SWAP"), op("DUP"), op("DUP"), op("DUP")]):
+                cases.append(case(pre + tail, sols=RICH_SOLS, entries=ents, mem=[1, 2, 3, 4], rep=[(1, 5, 0)]))
     # parent memory + children's memories around the limit (each side alone within it)
     for pm in (0, 1, 240, 241, MEM_LIMIT - 1, MEM_LIMIT):
         for b in (1, 2):
@@ -389,6 +402,19 @@ def c08_cases(rng, tier):
     data_alpha = ["POP", "DUP", "DUPF", "SWAP", "SWAPI", "SEL", "SLTR", "RES", "LODS", "STOS", "DROP", "EQ", "EQRA", "GT",
                   "LT", "GTE", "LTE", "AND", "OR", "NOT", "EQST", "BAND", "BOR", "ADD", "SUB", "MUL", "DIV", "MOD", "SHL",
                   "SHR", "SHRI", "ALOC", "FREE", "LOD", "STO", "LODR", "STOR", "LODP", "LODPR", "PUSH", "PUSH", "PUSH"]
+    # stack / memory grown *by the program* to just below their limits (the allocation then has spare capacity), then one
+    # more op: the overflow error must not depend on how the state was reached
+    ents = std_entries()
+    for grow in ([P(3000), op("RES"), P(1093), op("RES")], [P(2048), op("RES"), P(2045), op("RES")], [P(4093), op("RES")], [P(1), P(4092), op("RES")]):
+        for fill in (0, 1, 2, 3):
+            pre = grow + [P(1)] * fill
+            for tail_ in ([op("DUP")], [op("DUP"), op("DUP")], [P(0), op("DUPF")], [P(3), op("RES")], [P(2), op("RES")], [P(0), P(3), op("LODR")],
+                          [P(0), P(2), op("LODR")], [P(0), op("LODS")], [op("SWAP"), op("DUP"), op("DUP")], [P(1), P(1), op("ADD"), op("DUP")]):
+                cases.append(case(pre + tail_, sols=RICH_SOLS, entries=ents, mem=[1, 2, 3, 4]))
+    for grow in ([P(6000), op("ALOC"), op("POP"), P(4239), op("ALOC"), op("POP")], [P(10239), op("ALOC"), op("POP")]):
+        for tail_ in ([P(1), op("ALOC")], [P(2), op("ALOC")], [P(0), op("ALOC"), P(1), op("ALOC")], [P(7), P(10239), op("STO")], [P(7), P(10238), op("STO")],
+                      [P(7), P(8), P(2), P(10238), op("STOR")], [P(7), P(8), P(2), P(10237), op("STOR")]):
+            cases.append(case(grow + tail_, sols=RICH_SOLS))
     n = 1500 if tier == "quick" else 60000
     for _ in range(n):
         ops_ = random_program(rng, rng.randrange(2, 25), alphabet=data_alpha)
@@ -479,6 +505,15 @@ def c09_cases(rng, tier):
     cases.append(case([op("HLT")]))
     cases.append(case([]))
     cases.append(case([P(1)], pc=5))
+    # programs longer than 65536 ops: repeat loops, jumps and a halt beyond the 16-bit boundary (a pc or loop start kept
+    # in a narrow integer wraps there)
+    filler = [P(0), op("POP")] * 32770            # 65540 ops
+    for up in (0, 1):
+        cases.append(case(filler + [P(3), P(up), op("REP"), op("REPC"), op("REPE"), P(-7)], limit=U64_MAX))
+    cases.append(case(filler + [P(5), P(6), P(-2), P(1), op("JMPIF"), P(9)], limit=70000 * 3))
+    cases.append(case(filler + [P(3), P(1), op("JMPIF"), P(7), P(8), P(9)], limit=U64_MAX))
+    cases.append(case(filler + [P(1), op("HLTIF"), P(9)], limit=U64_MAX))
+    cases.append(case([P(65541), P(1), op("JMPIF")] + filler + [P(9)], limit=U64_MAX))
     # repeat: counts x directions, counter observed, body leaves a trace on the stack
     for n in (I64_MIN, -5, -1, 0, 1, 2, 3, 7, 50):
         for up in (0, 1, 2, -1):
@@ -675,6 +710,13 @@ def c12_cases(rng, tier):
     for ln in range(0, 201 if tier == "thorough" else 72):
         data = bytes((7 * i + ln) & 0xFF for i in range(ln))
         cases.append(case([op("SHA2")], stack=[9] + words_of_bytes(data) + [ln], sols=sols))
+    # message lengths around typical fixed buffer sizes (a stack buffer of 2^k bytes / words goes wrong just above it)
+    for base in (256, 512, 1024, 2048, 4096, 8192, 8 * 4000):
+        for d in (-9, -8, -7, -1, 0, 1, 7, 8, 9, 15, 16):
+            ln = base + d
+            if ln // 8 + 3 <= STACK_LIMIT and (tier == "thorough" or d in (-8, -1, 0, 1, 7, 8, 9)):
+                data = bytes((5 * i + ln) & 0xFF for i in range(ln))
+                cases.append(case([op("SHA2")], stack=[9] + words_of_bytes(data) + [ln], sols=sols))
     for ln in (-1, 1, 8, 9, 17, I64_MAX):
         cases.append(case([op("SHA2")], stack=[ln], sols=sols))
         cases.append(case([op("SHA2")], stack=[1, ln], sols=sols))
@@ -686,7 +728,7 @@ def c12_cases(rng, tier):
     eds, secs = [], []
     for i in range(6 if tier == "quick" else 40):
         sk = bytes(rng.randrange(1, 256) for _ in range(32))
-        msg = bytes(rng.randrange(256) for _ in range(rng.choice([0, 1, 7, 8, 9, 31, 32, 33, 64, 100])))
+        msg = bytes(rng.randrange(256) for _ in range(rng.choice([0, 1, 7, 8, 9, 31, 32, 33, 64, 100, 1023, 1024, 1025, 1031, 1032, 2049])))
         h = hashlib.sha256(msg).digest()
         q.append(f"e{i} ed_sign {hx(sk)} {hx(msg)}")
         q.append(f"s{i} secp_sign {hx(sk)} {hx(h)}")
@@ -710,6 +752,29 @@ def c12_cases(rng, tier):
                            (h, sig, rid + (1 << 32)), (h, sig, I64_MIN), (h[::-1], sig, rid), (h, sig[::-1], rid),
                            (h, bytes([0xFF] * 64), rid), (h, bytes(64), rid), (h, sig[:32] + bytes(32), rid),
                            (h, bytes([0xFF] * 32) + sig[32:], rid), (bytes(32), sig, rid)]
+    # ed25519 corner cases: the eight small-order points as public key and as R, with s = 0 (plain `verify` accepts some of
+    # them for every message; a stricter or laxer verification rule shows here and nowhere else)
+    small_order = [bytes.fromhex(h) for h in (
+        "0100000000000000000000000000000000000000000000000000000000000000",
+        "ecffffffffffffffffffffffffffffffffffffffffffffffffffffffffffff7f",
+        "0000000000000000000000000000000000000000000000000000000000000000",
+        "0000000000000000000000000000000000000000000000000000000000000080",
+        "26e8958fc2b227b045c3f489f2ef98f0d5dfac05d3c63339b13802886d53fc05",
+        "26e8958fc2b227b045c3f489f2ef98f0d5dfac05d3c63339b13802886d53fc85",
+        "c7176a703d4dd84fba3c0b760d10670f2a2053fa2c39ccc64ec7fd7792ac037a",
+        "c7176a703d4dd84fba3c0b760d10670f2a2053fa2c39ccc64ec7fd7792ac03fa")]
+    for pk_ in small_order:
+        for r_ in small_order[:4] + [small_order[4]]:
+            for msg_ in (b"", b"abc"):
+                ed_cases.append((pk_, r_ + bytes(32), msg_))
+    # non-canonical s (s + L) of a valid signature, and s = L
+    L_ = (1 << 252) + 27742317777372353535851937790883648493
+    if ed_cases:
+        pk0, sig0, msg0 = ed_cases[0]
+        s0 = int.from_bytes(sig0[32:], "little")
+        if s0 + L_ < 1 << 256:
+            ed_cases.append((pk0, sig0[:32] + (s0 + L_).to_bytes(32, "little"), msg0))
+        ed_cases.append((pk0, sig0[:32] + L_.to_bytes(32, "little"), msg0))
     ones = lambda n: b"".join((1).to_bytes(8, "big") for _ in range(n))
     secp_cases.append((ones(4), ones(8), 1))
     ed_cases.append((ones(4), ones(8), b""))
